@@ -43,16 +43,16 @@ type simConn struct {
 
 	writeYield  bool          // Write parks until released by the controller
 	writeParked chan struct{} // non-nil while a Write is parked
-	auto       bool // free-running mode: the wire is delivered at once
-	rstPending bool // free-running mode: reset once the inbox is drained
-	consumed   int  // bytes the client has read
-	run        *Run
+	auto        bool          // free-running mode: the wire is delivered at once
+	rstPending  bool          // free-running mode: reset once the inbox is drained
+	consumed    int           // bytes the client has read
+	run         *Run
 
-	failWriteAt int // fail the n-th client write (1-based), 0 = never
-	nWrites     int
-	delivered   int // total bytes delivered to the client
-	readCalls   int
-	closeCalls  int
+	failWriteAt       int // fail the n-th client write (1-based), 0 = never
+	nWrites           int
+	delivered         int // total bytes delivered to the client
+	readCalls         int
+	closeCalls        int
 	readAfterCloseErr int
 }
 
